@@ -777,7 +777,8 @@ func (g *SummaryGraph) addBoundVarEdge(mark MarkWithAccessPath, cond *ConditionI
 func (g *SummaryGraph) addReturnEdge(mark MarkWithAccessPath, cond *ConditionInfo, retInstr ssa.Instruction,
 	tupleIndex int) {
 
-	if tupleIndex < 0 || tupleIndex > len(g.Returns) {
+	// g.Returns maps each return instruction to one node per returned value
+	if tupleIndex < 0 || tupleIndex >= len(g.Returns[retInstr]) {
 		return
 	}
 
